@@ -299,7 +299,7 @@ func runC15(r *Run) {
 	c15E2ECorpus(r)
 
 	// ---- random graphs
-	n := r.N(2500, 30000)
+	n := r.N(4000, 60000)
 	r.Cases(100, n, 0, func(c *Case, rng *Rng) {
 		multi := rng.Chance(8)
 		nv := rng.Range(2, 7)
@@ -317,8 +317,12 @@ func runC15(r *Run) {
 			if multi && rng.Chance(30) {
 				grp = "h.io"
 			}
-			a := c15Spell(rng, grp, c15Names[rng.Intn(nv)], 50)
-			b := c15Spell(rng, grp, c15Names[rng.Intn(nv)], 50)
+			ia, ib := rng.Intn(nv), rng.Intn(nv)
+			if ia == ib && rng.Chance(85) {
+				ib = (ia + 1 + rng.Intn(nv-1)) % nv
+			}
+			a := c15Spell(rng, grp, c15Names[ia], 50)
+			b := c15Spell(rng, grp, c15Names[ib], 50)
 			q := c15Query{crd, a, b}
 			if rng.Chance(5) {
 				q.Crd = "other"
